@@ -413,3 +413,10 @@ pub struct ExAssertKind(core::panicking::AssertKind);
 pub assume_specification<T: core::fmt::Debug + ?Sized, U: core::fmt::Debug + ?Sized>[ core::panicking::assert_failed::<T, U> ](
     kind: core::panicking::AssertKind, left: &T, right: &U, args: Option<core::fmt::Arguments<'_>>) -> !
     requires false;
+
+/// `xtrace.as_deref_mut()`: a shorter re-borrow of the optional tracer (std; ASSUMED to hand the tracer on)
+#[verifier::external_body]
+pub fn verif_reborrow<'a, 'b>(x: &'a mut Option<&'b mut XTrace>) -> (r: Option<&'a mut XTrace>) { x.as_deref_mut() }
+/// ASSUMED contract of Option::or
+pub assume_specification<T>[ Option::<T>::or ](a: Option<T>, b: Option<T>) -> (r: Option<T>)
+    ensures r == (if a is Some { a } else { b });
